@@ -8,8 +8,12 @@ import os, sys, re, json, time, subprocess, fcntl, hashlib, shutil, random
 VERIF = os.path.dirname(os.path.dirname(os.path.abspath(__file__)))
 REPO = os.environ.get("VERIF_REPO", "/repo")
 BUILD = os.environ.get("VERIF_BUILD") or os.path.join(VERIF, "build")   # harness binaries, traces, replay files, extracted model
-LOCKDIR = os.path.join(VERIF, "build")                                  # the Coq tree is shared: one lock for everybody
-COQ = os.path.join(VERIF, "coq")
+# The Coq tree.  Checks of /repo share <verif>/coq (one lock for everybody).  A check of ANOTHER source tree (VERIF_REPO set:
+# a seeded change in a scratch worktree) gets a private copy under its VERIF_BUILD: regenerating Gen/*.v from a mutated tree must
+# not disturb the theorems other checks are building at the same time, and vice versa.
+PRIVATE_COQ = bool(os.environ.get("VERIF_BUILD")) and os.path.realpath(REPO) != "/repo"
+COQ = os.path.join(BUILD, "coq") if PRIVATE_COQ else os.path.join(VERIF, "coq")
+LOCKDIR = BUILD if PRIVATE_COQ else os.path.join(VERIF, "build")
 OCAML = os.path.join(BUILD, "ocaml")
 EVID = os.environ.get("VERIF_EVIDENCE") or os.path.join(VERIF, "evidence")
 REPLAY = os.path.join(BUILD, "replay")
@@ -18,6 +22,13 @@ JOBS = str(os.cpu_count() or 8)
 
 for d in (BUILD, OCAML, EVID, REPLAY, LOCKDIR):
     os.makedirs(d, exist_ok=True)
+if PRIVATE_COQ and not os.path.exists(os.path.join(COQ, "_CoqProject")):
+    # copy the shared tree (sources and compiled files, time stamps kept) while nobody is building in it
+    _lf = open(os.path.join(VERIF, "build", ".build.lock"), "w"); fcntl.flock(_lf, fcntl.LOCK_EX)
+    try:
+        subprocess.run(["cp", "-a", os.path.join(VERIF, "coq"), COQ], check=True)
+    finally:
+        fcntl.flock(_lf, fcntl.LOCK_UN); _lf.close()
 
 # release configuration of the pinned suite (DESIGN.md section 0)
 CFLAGS_REL = ["-O1", "-g", "-DNDEBUG", "-DMI_BUILD_RELEASE", "-std=gnu11", "-Wno-unused-function",
@@ -201,6 +212,59 @@ def coq_make(targets, timeout=3000):
         cmd = ["make", "-k", "-j" + JOBS] + list(targets)
         rc, txt = run(["timeout", str(timeout)] + cmd, cwd=COQ, timeout=timeout + 30)
         return rc == 0, txt, "cd coq && " + " ".join(cmd)
+
+
+GOLDEN = os.path.join(VERIF, "build", "coq_golden")
+
+
+def _source_signature(root):
+    """names and contents of the hand-written .v files (everything except Gen/ and the generated Extract/All.v)"""
+    h = hashlib.sha256()
+    for d, _, files in sorted(os.walk(root)):
+        if os.path.basename(d) in ("Gen", "extracted", "extracted_all"): continue
+        for f in sorted(files):
+            if f.endswith(".v") and not (f == "All.v" and os.path.basename(d) == "Extract"):
+                pth = os.path.join(d, f)
+                h.update(os.path.relpath(pth, root).encode()); h.update(open(pth, "rb").read())
+    return h.hexdigest()
+
+
+def golden_save():
+    """tools/setup: keep a copy of the freshly compiled tree (sources, Gen files and .vo with their time stamps)"""
+    with Lock():
+        rc, txt = run(["rsync", "-a", "--delete", "--exclude", "extracted_all", "--exclude", "extracted", COQ + "/", GOLDEN + "/"], timeout=900)
+        if rc == 0:
+            open(GOLDEN + ".stamp", "w").write(_source_signature(COQ))
+        return rc == 0, txt
+
+
+def golden_restore():
+    """After a run on a CHANGED source tree (Gen/*.v regenerated differently, dependent .vo rebuilt or broken) the next run on the
+    original tree would have to recompile everything that depends on the Gen files (up to 25 minutes).  When the hand-written
+    sources are exactly those of the saved copy and the regenerated Gen files have the saved contents again, the compiled files
+    of the saved copy are still valid: put them (and the Gen files with their old time stamps) back instead of recompiling.
+    Nothing is restored when any source or Gen file differs; make then decides as usual."""
+    if PRIVATE_COQ or not os.path.exists(GOLDEN + ".stamp"):
+        return False
+    try:
+        gdir = os.path.join(GOLDEN, "Gen")
+        names = sorted(f for f in os.listdir(gdir) if f.endswith(".v"))
+        stale = False
+        for f in names:
+            cur = os.path.join(COQ, "Gen", f)
+            if not os.path.exists(cur) or open(cur, "rb").read() != open(os.path.join(gdir, f), "rb").read():
+                return False                                  # a Gen file really differs: the theorems must be re-checked
+            if os.path.getmtime(cur) != os.path.getmtime(os.path.join(gdir, f)): stale = True
+        if not stale:
+            return False                                      # nothing was regenerated since the copy was made
+        if open(GOLDEN + ".stamp").read() != _source_signature(COQ):
+            return False                                      # hand-written sources were edited after setup
+        with Lock():
+            rc, txt = run(["rsync", "-a", "--include", "*/", "--include", "*.vo", "--include", "*.vos", "--include", "*.vok", "--include", "*.glob",
+                           "--include", ".*.aux", "--include", "Gen/*.v", "--exclude", "*", GOLDEN + "/", COQ + "/"], timeout=900)
+        return rc == 0
+    except OSError:
+        return False
 
 
 def coq_first_error(logtxt):
@@ -508,6 +572,8 @@ def proof_stage(res, pid, extra_targets=(), with_override=False, files=None):
     if missing:
         res.violation("proof:missing", "property file(s) missing: " + ", ".join(missing), witness=None)
         return False
+    if golden_restore():
+        log("[coq] compiled files of the saved copy restored (sources and regenerated Gen files are unchanged)")
     deps_ok, mlog, mcmd = coq_make(["Properties/%s.vo" % f for f in files] + list(extra_targets))
     thms_all = []
     for f in files:
